@@ -669,3 +669,127 @@ Proof.
       * intros g' gt1. rewrite Hg1. apply HA1.
       * intros g' Hrv. rewrite Hg1. apply HA2. unfold s1 in Hrv. destruct rmq; exact Hrv.
 Qed.
+
+(* ------------------------------------------------------------------ histories *)
+Lemma ledger_step_dec L x tl a r (user : ugi) rm :
+  ledger_step L (ODec (x :: tl) a (Some r) user rm) = ledger_dec L a (fst user) (x :: tl) r rm.
+Proof. destruct rm; reflexivity. Qed.
+
+Lemma neg_res_wf r : wf r -> wf (neg_res r).
+Proof. unfold wf, neg_res, keys. rewrite map_map. cbn. auto. Qed.
+Lemma in_range_opp_bounded v : in_range v -> (v <> MIN)%Z -> in_range (- v).
+Proof. unfold in_range, MIN, MAX. lia. Qed.
+
+Lemma LInv_step L o : LInv L -> hist_ok L o ->
+  (forall p a r u, o = ODec p a (Some r) u false -> res_in_range (neg_res r)) ->
+  LInv (ledger_step L o).
+Proof.
+  intros [W R C] H Hneg. destruct o as [p a [r|] u sched|p a [r|] u rm|p a u|p a u|c rn]; cbn [hist_ok] in H; try contradiction; try (constructor; assumption).
+  - destruct H as ((tl & ->) & Hae & Hue & Wr & Rr & Hall). cbn [ledger_step]. constructor.
+    + intros e [<-|Hin]; [split; assumption|apply W; assumption].
+    + intros e [<-|Hin]; [exists tl; reflexivity|apply R; assumption].
+    + intros e1 e2 [<-|H1] [<-|H2] Heq; cbn [le_app le_user le_path] in *.
+      * split; reflexivity.
+      * destruct (Hall e2 H2 (eq_sym Heq)) as (A & B). split; congruence.
+      * destruct (Hall e1 H1 Heq) as (A & B). split; congruence.
+      * apply C; assumption.
+  - destruct H as ((tl & ->) & Hae & Hue & Wr & Rr & (e1 & Hin1 & Ha1) & Hall & Hsum). destruct rm; cbn [ledger_step].
+    + constructor.
+      * intros e Hin. apply filter_In in Hin. apply W. apply Hin.
+      * intros e Hin. apply filter_In in Hin. apply R. apply Hin.
+      * intros e2 e3 H2 H3. apply filter_In in H2. apply filter_In in H3. apply C; [apply H2|apply H3].
+    + constructor.
+      * intros e [<-|Hin]; [split; [apply neg_res_wf; assumption|apply (Hneg _ _ _ _ eq_refl)]|apply W; assumption].
+      * intros e [<-|Hin]; [exists tl; reflexivity|apply R; assumption].
+      * intros e2 e3 [<-|H2] [<-|H3] Heq; cbn [le_app le_user le_path] in *.
+        -- split; reflexivity.
+        -- destruct (Hall e3 H3 (eq_sym Heq)) as (A & B). split; congruence.
+        -- destruct (Hall e2 H2 Heq) as (A & B). split; congruence.
+        -- apply C; assumption.
+Qed.
+
+Lemma Inv_step s L o s' :
+  Inv s L -> LInv L -> hist_ok L o -> bounded L -> bounded (ledger_step L o) ->
+  fst (step s o) = Some s' -> Inv s' (ledger_step L o).
+Proof.
+  intros HI HLI H B B' Hs.
+  destruct o as [p a [r|] u sched|p a [r|] u rm|p a u|p a u|c rn]; cbn [hist_ok] in H; try contradiction.
+  - destruct H as ((tl & ->) & Hae & Hue & Wr & Rr & Hall). cbn in Hs. injection Hs as <-. cbn [ledger_step] in *.
+    apply Inv_increase; try assumption; apply N.eqb_neq; assumption.
+  - destruct H as ((tl & ->) & Hae & Hue & Wr & Rr & Hex & Hall & Hsum). cbn in Hs. injection Hs as <-.
+    rewrite ledger_step_dec in *. apply Inv_decrease; try assumption; apply N.eqb_neq; assumption.
+  - destruct H as (x & tl & ->). unfold step, step_gen in Hs. destruct (ugm_headroom s (x :: tl) a u) as [s1 h] eqn:E.
+    cbn in Hs. injection Hs as <-. replace s1 with (fst (ugm_headroom s (x :: tl) a u)) by (rewrite E; reflexivity).
+    apply Inv_headroom. assumption.
+  - destruct H as (x & tl & ->). unfold step, step_gen in Hs. destruct (ugm_can_run_app s (x :: tl) a u) as [s1 h] eqn:E.
+    cbn in Hs. injection Hs as <-. replace s1 with (fst (ugm_can_run_app s (x :: tl) a u)) by (rewrite E; reflexivity).
+    apply Inv_can_run_app. assumption.
+Qed.
+
+(* a history that keeps the pairing discipline, all sums within int64 *)
+Fixpoint hist_all_ok (L : ledger) (ops : list op) : Prop :=
+  match ops with
+  | [] => True
+  | o :: t => hist_ok L o /\ bounded (ledger_step L o) /\
+              (forall p a r u, o = ODec p a (Some r) u false -> res_in_range (neg_res r)) /\
+              hist_all_ok (ledger_step L o) t
+  end.
+Definition ledger_of (ops : list op) : ledger := fold_left ledger_step ops [].
+
+Lemma Inv_run ops : forall s L s',
+  Inv s L -> LInv L -> bounded L -> hist_all_ok L ops -> run s ops = Some s' ->
+  Inv s' (fold_left ledger_step ops L) /\ LInv (fold_left ledger_step ops L).
+Proof.
+  induction ops as [|o t IH]; intros s L s' HI HLI B H Hr.
+  - cbn in Hr. injection Hr as <-. split; assumption.
+  - cbn [run] in Hr. destruct H as (Hok & B' & Hneg & Ht). destruct (fst (step s o)) as [s1|] eqn:Es; [|discriminate].
+    cbn [fold_left]. apply (IH s1 (ledger_step L o) s'); try assumption.
+    + apply (Inv_step s L o s1); assumption.
+    + apply LInv_step; assumption.
+Qed.
+
+Lemma spec_usage_lsum s L w names k : (forall e, In e L -> exists t, le_path e = ROOT :: t) ->
+  spec_usage s L w (ROOT :: names) k = lsum (counts s w) L names k.
+Proof.
+  induction L as [|e t IH]; intros H; [reflexivity|].
+  unfold spec_usage, lsum in *. cbn [fold_right]. rewrite IH by (intros; apply H; right; assumption).
+  destruct (H e (or_introl eq_refl)) as (tl & Hp). unfold under. rewrite Hp. cbn [is_prefix]. rewrite N.eqb_refl. reflexivity.
+Qed.
+
+Lemma tracked_araw s w names k :
+  tracked s w (ROOT :: names) k = match who_root s w with Some q => getz (oget (araw q names)) k | None => 0%Z end.
+Proof.
+  unfold tracked, node. destruct (who_root s w) as [q|]; [|reflexivity]. rewrite qt_at_sub. unfold araw.
+  destruct (sub_at names q); reflexivity.
+Qed.
+
+Lemma Inv_usage_exact s L w names k : Inv s L -> LInv L -> usage_exact s L w (ROOT :: names) k = true.
+Proof.
+  intros (HW & _) HLI. unfold usage_exact. apply Z.eqb_eq. rewrite tracked_araw, (spec_usage_lsum s L w names k (li_root L HLI)).
+  specialize (HW w). destruct (who_root s w) as [q|].
+  - apply (ti_usage q _ L HW).
+  - symmetry. apply lsum_none. assumption.
+Qed.
+
+Lemma bounded_nil : bounded [].
+Proof. intros sel names k. cbn. apply in_range_0. Qed.
+Lemma LInv_nil : LInv [].
+Proof. constructor; [intros e H|intros e H|intros e1 e2 H]; destruct H. Qed.
+
+(* usage = sum of the live allocations after every paired history that starts in a state
+   without usage *)
+Theorem usage_is_sum_lemma s0 ops s :
+  Inv s0 [] -> hist_all_ok [] ops -> run s0 ops = Some s ->
+  forall w names k, usage_exact s (ledger_of ops) w (ROOT :: names) k = true.
+Proof.
+  intros HI H Hr w names k. destruct (Inv_run ops s0 [] s HI LInv_nil bounded_nil H Hr) as (HI' & HL').
+  apply Inv_usage_exact; assumption.
+Qed.
+(* back to zero when everything has been released *)
+Corollary usage_back_to_zero s0 ops s :
+  Inv s0 [] -> hist_all_ok [] ops -> run s0 ops = Some s -> ledger_of ops = [] ->
+  forall w names k, tracked s w (ROOT :: names) k = 0%Z.
+Proof.
+  intros HI H Hr HE w names k. pose proof (usage_is_sum_lemma s0 ops s HI H Hr w names k) as Hx.
+  unfold usage_exact in Hx. apply Z.eqb_eq in Hx. rewrite Hx, HE. reflexivity.
+Qed.
